@@ -101,7 +101,10 @@ Proof. vm_compute. reflexivity. Qed.
 Print Assumptions C11_comment_ops_ok.
 
 (* MAIN: assembling the disassembly of a well-formed module gives back the same strings, function table and code (and the
-   entry point when the module has one).  wf_moduleb is the decidable hypothesis evaluated by the harness on every module. *)
+   entry point when the module has one).  wf_moduleb is the decidable hypothesis evaluated by the harness on every module:
+   strings shorter than 4096 bytes and pairwise distinct, function names identifiers, code laid out in table order, code that
+   decodes, at most 2048 jump operands per function, floats the oracle re-reads.  Strings may contain any byte, jumps may go
+   anywhere. *)
 Theorem C11_asm_disasm_module :
   forall (print_f64 : N -> text) (parse_f64 : text -> option (N * text)) (good : N -> bool),
   (forall v, good v = true -> f64_text_ok print_f64 parse_f64 v) ->
@@ -138,23 +141,9 @@ Example C11_text_nonvacuous :
   wf_moduleb table_list toy_good ex_module = true /\ roundtrip_ok table_list toy_print toy_parse ex_module = true.
 Proof. vm_compute. split; reflexivity. Qed.
 
-(* refuted on the unchanged tools: each witness violates exactly one conjunct of wf_moduleb and the (faithful) model loses or
-   refuses it; every witness is replayed on the real disassembler+assembler by the check (known_findings.d/C11.json). *)
-(* a string containing ';' : asm_assemble strips comments before parsing .string -> ASM_ERR_SYNTAX at line 2 *)
-Theorem C11_text_roundtrip_refuted_string_semicolon :
-  exists m, forall pf sf, roundtrip_err table_list pf sf m = Some (asm_err_syntax, 2).
-Proof. exists (Mo 1 0 [B "f"; B "a;b"] [Fe 0 0 0 1 1 0] ret1). intros pf sf. vm_compute. reflexivity. Qed.
-Print Assumptions C11_text_roundtrip_refuted_string_semicolon.
-(* a newline in a string shown in the PUSH_STR comment: the tail "RET" is assembled as an extra instruction, silently *)
-Theorem C11_text_roundtrip_refuted_string_newline :
-  exists m, forall pf sf, roundtrip_ok table_list pf sf m = false /\ roundtrip_err table_list pf sf m = None.
-Proof. exists (Mo 1 0 [B "f"; [120; 10; 82; 69; 84]] [Fe 0 0 0 6 1 0] [4;1;0;0;0; 61]). intros pf sf. vm_compute. split; reflexivity. Qed.
-Print Assumptions C11_text_roundtrip_refuted_string_newline.
-(* an embedded NUL: the string comes back truncated *)
-Theorem C11_text_roundtrip_refuted_string_nul :
-  exists m, forall pf sf, roundtrip_ok table_list pf sf m = false /\ roundtrip_err table_list pf sf m = None.
-Proof. exists (Mo 1 0 [B "f"; [120; 0; 121]] [Fe 0 0 0 1 1 0] ret1). intros pf sf. vm_compute. split; reflexivity. Qed.
-Print Assumptions C11_text_roundtrip_refuted_string_nul.
+(* still refuted after the fix: commits (comment stripping, comment newline, NUL, patch fix-up, label table, denormals, label
+   boundaries are repaired and their refutations are gone): each witness violates exactly one conjunct of wf_moduleb and the
+   (faithful) model loses or refuses it; every witness is replayed on the real disassembler+assembler by the check. *)
 (* a function name that is not an identifier *)
 Theorem C11_text_roundtrip_refuted_function_name :
   exists m, forall pf sf, roundtrip_err table_list pf sf m = Some (asm_err_syntax, 5).
@@ -165,18 +154,29 @@ Theorem C11_text_roundtrip_refuted_layout :
   exists m, forall pf sf, roundtrip_ok table_list pf sf m = false /\ roundtrip_err table_list pf sf m = None.
 Proof. exists (Mo 1 1 [B "a"; B "b"] [Fe 0 0 2 2 0 0; Fe 1 2 0 2 3 0] [0;163; 5;61]). intros pf sf. vm_compute. split; reflexivity. Qed.
 Print Assumptions C11_text_roundtrip_refuted_layout.
-(* JMP L0 ; JMP 100 ; L0: RET -- the numeric operand steals the label's patch: both jumps come back wrong, silently *)
-Theorem C11_text_roundtrip_refuted_numeric_after_label :
-  exists m, forall pf sf, roundtrip_ok table_list pf sf m = false /\ roundtrip_err table_list pf sf m = None.
-Proof. exists (Mo 1 0 [B "f"] [Fe 0 0 0 11 1 0] [56;10;0;0;0; 56;100;0;0;0; 61]). intros pf sf. vm_compute. split; reflexivity. Qed.
-Print Assumptions C11_text_roundtrip_refuted_numeric_after_label.
-(* a jump into the middle of an instruction: the label is referenced but never defined -> ASM_ERR_UNDEFINED_LABEL *)
-Theorem C11_text_roundtrip_refuted_mid_instruction :
-  exists m, forall pf sf, roundtrip_err table_list pf sf m = Some (asm_err_undefined_label, 9).
-Proof. exists (Mo 1 0 [B "f"] [Fe 0 0 0 15 1 0] [1;5;0;0;0;0;0;0;0; 56;248;255;255;255; 61]). intros pf sf. vm_compute. reflexivity. Qed.
-Print Assumptions C11_text_roundtrip_refuted_mid_instruction.
 (* a byte that is not an opcode inside the code: printed as a comment, dropped by the round trip *)
 Theorem C11_text_roundtrip_refuted_undecodable :
   exists m, forall pf sf, roundtrip_ok table_list pf sf m = false /\ roundtrip_err table_list pf sf m = None.
 Proof. exists (Mo 1 0 [B "f"] [Fe 0 0 0 3 1 0] [0; 11; 61]). intros pf sf. vm_compute. split; reflexivity. Qed.
 Print Assumptions C11_text_roundtrip_refuted_undecodable.
+
+(* 2049 label references in one function: the patch table is full -> ASM_ERR_MEMORY at the 2049th jump (line 5 + 2049) *)
+Theorem C11_text_roundtrip_refuted_patch_table :
+  exists m, forall pf sf, roundtrip_err table_list pf sf m = Some (asm_err_memory, 2054).
+Proof. exists many_jumps_module. intros pf sf. vm_compute. reflexivity. Qed.
+Print Assumptions C11_text_roundtrip_refuted_patch_table.
+(* a string of 4096 bytes does not fit the assembler's directive buffer *)
+Theorem C11_text_roundtrip_refuted_long_string :
+  exists m, forall pf sf, roundtrip_err table_list pf sf m = Some (asm_err_syntax, 2).
+Proof. exists long_string_module. intros pf sf. vm_compute. reflexivity. Qed.
+Print Assumptions C11_text_roundtrip_refuted_long_string.
+
+(* what the repaired tools now do with the former witnesses: all round-trip (regression Examples) *)
+Example C11_text_repaired_witnesses : forall pf sf,
+  forallb (roundtrip_ok table_list pf sf)
+    [ Mo 1 0 [B "f"; B "a;b#c"] [Fe 0 0 0 1 1 0] ret1;
+      Mo 1 0 [B "f"; [120; 10; 82; 69; 84]] [Fe 0 0 0 6 1 0] [4;1;0;0;0; 61];
+      Mo 1 0 [B "f"; [120; 0; 121]] [Fe 0 0 0 1 1 0] ret1;
+      Mo 1 0 [B "f"] [Fe 0 0 0 11 1 0] [56;10;0;0;0; 56;100;0;0;0; 61];
+      Mo 1 0 [B "f"] [Fe 0 0 0 15 1 0] [1;5;0;0;0;0;0;0;0; 56;248;255;255;255; 61] ] = true.
+Proof. intros pf sf. vm_compute. reflexivity. Qed.
